@@ -294,6 +294,14 @@ struct Script<'a> {
     expected: Option<usize>,
 }
 
+/// what a peer signs to prove its identity (the protocol's message for a challenge, written out here
+/// independently of the library)
+fn proof_message(challenge: &[u8]) -> Vec<u8> {
+    let mut hasher = blake3::Hasher::new_derive_key("discret identity proof");
+    hasher.update(challenge);
+    hasher.finalize().as_bytes().to_vec()
+}
+
 fn malformed(node: &Node, signing: &dvv::security::Ed25519SigningKey, kind: u8) -> Node {
     let mut n = node.clone();
     match kind % 7 {
@@ -356,13 +364,13 @@ async fn drive(conn: &mut Conn, sc: &Script<'_>, victim: &mut Option<Victim>) ->
     let mut answer: Option<Answer> = None;
     match sc.spec.behaviour {
         0 => {
-            let a = IdentityAnswer { peer: prover.node.clone(), chall_signature: prover.signing.sign(&challenge) };
+            let a = IdentityAnswer { peer: prover.node.clone(), chall_signature: prover.signing.sign(&proof_message(&challenge)) };
             ob.proved = Some(prover.key.clone());
             answer = Some(Answer { id: qid, success: true, complete: true, serialized: ser(&a) });
         }
         1 => {
             let row = expected.unwrap_or(prover);
-            let a = IdentityAnswer { peer: row.node.clone(), chall_signature: prover.signing.sign(&challenge) };
+            let a = IdentityAnswer { peer: row.node.clone(), chall_signature: prover.signing.sign(&proof_message(&challenge)) };
             if row.key == prover.key {
                 ob.proved = Some(prover.key.clone());
             }
@@ -372,7 +380,7 @@ async fn drive(conn: &mut Conn, sc: &Script<'_>, victim: &mut Option<Victim>) ->
             let who = expected.unwrap_or(prover);
             let mut other = challenge.clone();
             other[sc.spec.arg as usize % 32] ^= 1 << (sc.spec.arg % 8);
-            let a = IdentityAnswer { peer: who.node.clone(), chall_signature: who.signing.sign(&other) };
+            let a = IdentityAnswer { peer: who.node.clone(), chall_signature: who.signing.sign(&proof_message(&other)) };
             answer = Some(Answer { id: qid, success: true, complete: true, serialized: ser(&a) });
         }
         3 => {
@@ -383,32 +391,32 @@ async fn drive(conn: &mut Conn, sc: &Script<'_>, victim: &mut Option<Victim>) ->
             }
         }
         4 => {
-            let a = IdentityAnswer { peer: malformed(&prover.node, &prover.signing, sc.spec.arg), chall_signature: prover.signing.sign(&challenge) };
+            let a = IdentityAnswer { peer: malformed(&prover.node, &prover.signing, sc.spec.arg), chall_signature: prover.signing.sign(&proof_message(&challenge)) };
             answer = Some(Answer { id: qid, success: true, complete: true, serialized: ser(&a) });
         }
         5 => {
-            let a = IdentityAnswer { peer: prover.node.clone(), chall_signature: prover.signing.sign(&challenge) };
+            let a = IdentityAnswer { peer: prover.node.clone(), chall_signature: prover.signing.sign(&proof_message(&challenge)) };
             answer = Some(Answer { id: qid, success: false, complete: true, serialized: ser(&a) });
         }
         6 => {
-            let a = IdentityAnswer { peer: prover.node.clone(), chall_signature: prover.signing.sign(&challenge) };
+            let a = IdentityAnswer { peer: prover.node.clone(), chall_signature: prover.signing.sign(&proof_message(&challenge)) };
             let mut bytes = ser(&a);
             let cut = (sc.spec.arg as usize * bytes.len()) >> 8;
             bytes.truncate(cut);
             answer = Some(Answer { id: qid, success: true, complete: true, serialized: bytes });
         }
         7 => {
-            let a = IdentityAnswer { peer: prover.node.clone(), chall_signature: prover.signing.sign(&challenge) };
+            let a = IdentityAnswer { peer: prover.node.clone(), chall_signature: prover.signing.sign(&proof_message(&challenge)) };
             answer = Some(Answer { id: qid + 1 + sc.spec.arg as u64, success: true, complete: true, serialized: ser(&a) });
         }
         8 => {}
         9 => {
             delay_ms = 10_600;
-            let a = IdentityAnswer { peer: prover.node.clone(), chall_signature: prover.signing.sign(&challenge) };
+            let a = IdentityAnswer { peer: prover.node.clone(), chall_signature: prover.signing.sign(&proof_message(&challenge)) };
             answer = Some(Answer { id: qid, success: true, complete: true, serialized: ser(&a) });
         }
         _ => {
-            let mut sig = prover.signing.sign(&challenge);
+            let mut sig = prover.signing.sign(&proof_message(&challenge));
             match sc.spec.arg % 3 {
                 0 => sig.clear(),
                 1 => sig.truncate(63),
